@@ -71,6 +71,8 @@ RecFails(i, r) ==
     \o Chk(Want, i, "C08_ModifiedSurvives", C08_ModifiedSurvives(EditPaths(r), r.pre, r.post))
     \o Chk(Want, i, "C08_ModifiedReported", C08_ModifiedReported(EditPaths(r), r.plan, ProblemPaths(r), r.pre))
     \o Chk(Want, i, "C03_UntrackedOnDiskUntouched", r.pre.k # "notrecorded" => C03_UntrackedOnDiskUntouched(r.plan, r.pre, r.post))
+    \o Chk(Want, i, "C18_ExecBitOnDiskSurvives", r.pre.k # "notrecorded" /\ C18_ExecBitOnDiskSurvives(r.plan, r.pre, r.post, r.results))
+    \o Chk(Want, i, "C18_ReportedExecMatchesDisk", C18_ReportedExecMatchesDisk(r.plan, r.results, r.post))
     \o Chk(Want, i, "C08_OutsidePlanUntouched", r.pre.k # "notrecorded" => C08_OutsidePlanUntouched(r.plan, r.pre, r.post))
 
 \* ---------------------------------------------------------- conformance
